@@ -823,6 +823,21 @@ func rulePREC2(c *Ctx) {
 		}
 		k2, ok := usesObj(info2, as.Rhs[0]).(*types.Const)
 		if !ok {
+			// the stored value is looked up in a constant table keyed by the qualifier's associativity
+			src := as.Rhs[0]
+			if o := usesObj(info2, src); o != nil {
+				if d := multiDefCallOrIndex(info2, rp, o); d != nil {
+					src = d
+				}
+			}
+			if key, entries, isTbl := constTable(p, pk2, src); isTbl && isField(info2, key, "internal/ast", "ProdQualifier", "Associativity") {
+				for _, en := range entries {
+					if vk, isK := usesObj(info2, en.Val).(*types.Const); isK && en.Key != nil {
+						arms[en.Key.Name()] = vk.Pkg().Name() + "." + vk.Name()
+					}
+				}
+				return true
+			}
 			arms["(non-constant)"] = exprString(as.Rhs[0])
 			return true
 		}
@@ -1418,4 +1433,21 @@ func ruleCFL4(c *Ctx) {
 func isFieldNamed(info *types.Info, e ast.Expr, name string) bool {
 	fv, _ := selField(info, e)
 	return fv != nil && fv.Name() == name
+}
+
+
+// multiDefCallOrIndex: o is defined by `o, ok := <expr>` or `o := <expr>`; returns the expression.
+func multiDefCallOrIndex(info *types.Info, fd *ast.FuncDecl, o types.Object) ast.Expr {
+	var out ast.Expr
+	ast.Inspect(fd.Body, func(m ast.Node) bool {
+		as, ok := m.(*ast.AssignStmt)
+		if !ok || len(as.Rhs) != 1 || out != nil {
+			return true
+		}
+		if id, ok := as.Lhs[0].(*ast.Ident); ok && (info.Defs[id] == o || info.Uses[id] == o) {
+			out = as.Rhs[0]
+		}
+		return true
+	})
+	return out
 }
